@@ -48,7 +48,7 @@ class tm:
             elif init_arr_len == 2:
                 return self.from6DOF([initializer_array[0][0], initializer_array[0][1], 
                         initializer_array[0][2], initializer_array[1][0], 
-                        initializer_array[1][2], initializer_array[1][2]], rpy)
+                        initializer_array[1][1], initializer_array[1][2]], rpy)
         else:
             if init_arr_len == 6:
                 # Generate rotation adn translation from 6dof array
